@@ -485,8 +485,9 @@ def evaluate(ctx, cases):
                          "model %s %s %s ; implementation observed %s" % (fn, coq_prog[impl], model, obs),
                          "C26.Model.%s vs %s" % (coq_prog[impl], "api.py init_once" if impl == "py"
                                                  else "ffi_obj.c ffi_init_once"))
-        tv = ctx.extra.setdefault("traces_validated_against_impl", {})
+        tv = ctx.extra.setdefault("traces_validated_by_implementation", {})
         tv[impl] = tv.get(impl, 0) + replayed - len(badidx)
+        ctx.extra["traces_validated_against_impl"] = sum(tv.values())
         for c, r, obs in owner[:2]:
             ctx.sample(dict(impl=impl, n=c["n"], sched=r["sched"], observation=obs))
 
